@@ -446,3 +446,6 @@ M("c10_pp_keyword_dropped_in_no_color", "C10", "ak/ppobj.py",
 M("c10_sub_palette_cache_ignores_no_color", "C10", "ak/color.py",
   "            result = actual_palette_class(self.colors_conf, self._no_color)\n",
   "            result = actual_palette_class(self.colors_conf, False)\n")
+M("c04_revert_factorized_node_end", "C04", "ak/llparser.py",
+  "                    else:\n                        # the suffix matched nothing, so the element ends\n                        # where it's last actual child ends\n                        t_elem.end_pos = t_elem.value[-1].end_pos\n",
+  "")
